@@ -23,6 +23,12 @@ EXPLANATION = (
     "generated id (also one parked in our own request cache by the function that generated it) or converts an entry that exists under that id in "
     "another table; the PythonCryptoEndpoint that removes the layers is built around the endpoint the community itself is registered on "
     "(`self.endpoint`, not one of its interfaces), so no interface is left on which datagrams reach the cell handlers undecrypted. "
+    "A destroy-forwarding call made by on_destroy itself needs the same adjacency test as the removal. In the handlers of the plaintext "
+    "CREATED / EXTENDED cells (on_created, on_extended and the private steps they call) an entry is removed only on paths on which "
+    "verify_and_generate_shared_secret completed normally (the exit-socket -> relay-pair conversion under one id excepted); the removal in the "
+    "`except ValueError` of that step is a known finding of the unmodified tree. Paired steps written as a private context manager "
+    "(__exit__ / @contextmanager handler around the yield) are read as the try/except they are; T.update({k: v}) / setdefault / |= with "
+    "enumerable keys are item stores; `T.get(k, SENTINEL) is SENTINEL` with a module-private `object()` sentinel is `k not in T`. "
     "Guards are read off the function's control-flow graph first; where that reading fails the same question is asked path by "
     "path on a symbolic walk (locals expanded to the expressions they were bound to, tests over constants folded, loops over literal tuples "
     "unrolled, generator helpers stepped with the consuming loop, private helpers entered with parameters bound to the arguments). "
@@ -39,42 +45,113 @@ def _is_none(e) -> bool:
     return isinstance(e, ast.Constant) and e.value is None
 
 
+_SENTINELS: set = set()        # module-level names of the package bound once to a fresh `object()` and only ever used as a lookup default / in `is` tests
+_SENTINEL_REPO: list = [None]
+
+
+def _ensure_sentinels(repo) -> None:
+    """
+    A private sentinel `_MISSING = object()` used as `T.get(k, _MISSING) is _MISSING` is the `k not in T` test: the object is created once,
+    is never stored anywhere (every use of the name is a default argument of get/pop or an operand of is / is not) and therefore differs from
+    every entry.  The names are collected per analysed tree.
+    """
+    if _SENTINEL_REPO[0] is repo:
+        return
+    _SENTINEL_REPO[0] = repo
+    _SENTINELS.clear()
+    bad: set = set()
+    for m in repo.by_relpath.values() if hasattr(repo, "by_relpath") else []:
+        if not m.relpath.startswith("ipv8/messaging/anonymization/"):
+            continue
+        cand = {}
+        for st in m.tree.body:
+            if isinstance(st, (ast.Assign, ast.AnnAssign)) and st.value is not None:
+                tg = st.targets if isinstance(st, ast.Assign) else [st.target]
+                v = strip_cast(st.value)
+                if len(tg) == 1 and isinstance(tg[0], ast.Name) and isinstance(v, ast.Call) and isinstance(v.func, ast.Name) and v.func.id == "object" \
+                        and not v.args and not v.keywords:
+                    cand[tg[0].id] = cand.get(tg[0].id, 0) + 1
+        cand = {k for k, c in cand.items() if c == 1}
+        if not cand:
+            continue
+        for n in ast.walk(m.tree):
+            if isinstance(n, ast.Name) and n.id in cand:
+                par = getattr(n, "_parent", None)
+                if isinstance(n.ctx, ast.Store):
+                    if par not in m.tree.body and not (isinstance(par, (ast.Assign, ast.AnnAssign)) and par in m.tree.body):
+                        bad.add(n.id)
+                    continue
+                ok = False
+                if isinstance(par, ast.Compare) and all(isinstance(o, (ast.Is, ast.IsNot)) for o in par.ops):
+                    ok = True
+                elif isinstance(par, ast.Call) and isinstance(par.func, ast.Attribute) and par.func.attr in ("get", "pop") and len(par.args) == 2 \
+                        and par.args[1] is n:
+                    ok = True
+                if not ok:
+                    bad.add(n.id)
+            elif isinstance(n, (ast.Global, ast.Nonlocal)) and set(n.names) & cand:
+                bad.update(set(n.names) & cand)
+        _SENTINELS.update(cand)
+    _SENTINELS.difference_update(bad)
+
+
+def _default_of(e):
+    """for a lookup `T.get(k)` / `T.get(k, D)`: "none" when absent keys yield None, the sentinel's name when D is a private sentinel, else None"""
+    e = strip_cast(e)
+    if not (isinstance(e, ast.Call) and isinstance(e.func, ast.Attribute) and e.func.attr == "get" and not e.keywords and 1 <= len(e.args) <= 2):
+        return None
+    if len(e.args) == 1 or _is_none(strip_cast(e.args[1])):
+        return "none"
+    d = strip_cast(e.args[1])
+    return d.id if isinstance(d, ast.Name) and d.id in _SENTINELS else None
+
+
 def _entry_of(e, tables, keyp) -> bool:
-    """e denotes the entry of one of `tables` under a key accepted by keyp: T[k], T.get(k), T.get(k, None)"""
+    """e denotes the entry of one of `tables` under a key accepted by keyp: T[k], T.get(k), T.get(k, None), T.get(k, <private sentinel>)"""
     e = strip_cast(e)
     tables = (tables,) if isinstance(tables, str) else tables
     if isinstance(e, ast.Subscript):
         return chain(e.value) in tables and bool(keyp(strip_cast(e.slice)))
     if isinstance(e, ast.Call) and isinstance(e.func, ast.Attribute) and e.func.attr == "get" and chain(e.func.value) in tables \
             and not e.keywords and 1 <= len(e.args) <= 2 and not isinstance(e.args[0], ast.Starred):
-        return (len(e.args) == 1 or _is_none(e.args[1])) and bool(keyp(strip_cast(e.args[0])))
+        return _default_of(e) is not None and bool(keyp(strip_cast(e.args[0])))
     return False
 
 
+def _missing_marker(a, b) -> bool:
+    """b is exactly what lookup a yields for an absent key (None for T.get(k), the sentinel for T.get(k, SENTINEL))"""
+    d = _default_of(a)
+    b = strip_cast(b)
+    if d == "none" or isinstance(strip_cast(a), ast.Subscript):
+        return _is_none(b)
+    return d is not None and isinstance(b, ast.Name) and b.id == d
+
+
 def _present(f, tables, keyp) -> bool:
-    """fact f states that the entry under the key exists: `k in T`, `T.get(k)` truthy / is not None / != None"""
+    """fact f states that the entry under the key exists: `k in T`, `T.get(k)` truthy / is not None / != None, `T.get(k, S) is not S`"""
     tables = (tables,) if isinstance(tables, str) else tables
     if f.op == "in":
         return f.pos and bool(keyp(strip_cast(f.left))) and chain(_container(f.right)) in tables
     if f.op == "truthy":
-        return f.pos and _entry_of(f.left, tables, keyp)
+        return f.pos and _entry_of(f.left, tables, keyp) and (isinstance(strip_cast(f.left), ast.Subscript) or _default_of(f.left) == "none")
     if f.op in ("is", "eq") and f.right is not None:
         for a, b in ((f.left, f.right), (f.right, f.left)):
-            if _is_none(strip_cast(b)) and _entry_of(a, tables, keyp):
+            if _entry_of(a, tables, keyp) and _missing_marker(a, b) and (f.op == "is" or _is_none(strip_cast(b))):
                 return not f.pos
     return False
 
 
 def _absent(f, tables, keyp) -> bool:
-    """fact f states that there is no entry under the key: `k not in T`, `T.get(k) is None`, `not T.get(k)`"""
+    """fact f states that there is no entry under the key: `k not in T`, `T.get(k) is None`, `not T.get(k)`, `T.get(k, S) is S`"""
     tables = (tables,) if isinstance(tables, str) else tables
     if f.op == "in":
         return not f.pos and bool(keyp(strip_cast(f.left))) and chain(_container(f.right)) in tables
     if f.op == "truthy":
-        return not f.pos and _entry_of(f.left, tables, keyp) and not isinstance(strip_cast(f.left), ast.Subscript)
+        return not f.pos and _entry_of(f.left, tables, keyp) and not isinstance(strip_cast(f.left), ast.Subscript) and _default_of(f.left) == "none"
     if f.op in ("is", "eq") and f.right is not None:
         for a, b in ((f.left, f.right), (f.right, f.left)):
-            if _is_none(strip_cast(b)) and _entry_of(a, tables, keyp) and not isinstance(strip_cast(a), ast.Subscript):
+            if _entry_of(a, tables, keyp) and not isinstance(strip_cast(a), ast.Subscript) and _missing_marker(a, b) \
+                    and (f.op == "is" or _is_none(strip_cast(b))):
                 return f.pos
     return False
 
@@ -279,6 +356,7 @@ def _is_uint32(code: str) -> bool:
 
 def _try_walk(ctx: Ctx, fi: FuncInfo, force=()):
     """the path walk of fi, or None when the walk itself is undecided (the caller then has only its direct reading of the function)"""
+    _ensure_sentinels(ctx.repo)
     try:
         return _walk(ctx, fi, force)
     except AnalysisError as e:
@@ -482,6 +560,35 @@ def rule_destroy(ctx: Ctx) -> None:
                 f"{kind}({norm(resolve(fi, strip_cast(tgt))) if tgt is not None else ''}) authorised by the adjacent peer of that entry",
                 "a destroy message can remove a circuit/relay/exit entry without being signed by the adjacent node: " + why, d_facts)
 
+    # passing the destroy on is acting on it: the next node sees a destroy signed by ITS adjacent node (us) and removes its entry, so a
+    # forwarding call made by on_destroy itself needs the same authorisation as the removal of the relay pair (seeded C05-m15)
+    fw_direct = [c for c in calls(fi) if call_name(c) in DESTROY_SENDERS]
+    fw_groups = _call_groups(ctx, fi, lambda ch, f: f.attr if isinstance(f, ast.Attribute) and f.attr in DESTROY_SENDERS and chain(f.value) == "self" else None)
+    fw_sites: dict = {(id(c), call_name(c)): c for c in fw_direct}
+    for k, (orig, _nm, _hits) in (fw_groups or {}).items():
+        fw_sites.setdefault(k, orig)
+
+    def fw_ok(h: _Hit) -> bool:
+        facts = h.facts()
+        for tab in (RT, "self.exit_sockets", "self.circuits"):
+            keyp = x_pair_key if tab == RT else x_cid
+            if any(chain(a) == peer and _hop_field_of(b, "peer") is not None and _entry_of(_hop_field_of(b, "peer"), tab, keyp)
+                   for f in facts for a, b in _eq_sides(f)):
+                return True
+        return False
+
+    for key, c in fw_sites.items():
+        hits = None if fw_groups is None else fw_groups.get(key, (None, None, []))[2]
+        _decide(ctx, "destroy-authorised", fi, c, None if hits else False, hits or None, fw_ok,
+                f"{key[1]}(...) issued by on_destroy is authorised by the adjacent peer of the entry",
+                f"on_destroy passes the destroy on (`{norm(c)[:60]}`) on a path where the sender was not compared with the adjacent node of the entry: "
+                "the relay re-issues ANY validly signed destroy naming one of its circuit ids under its own signature, and the next node - which "
+                "correctly checks that the destroy comes from its adjacent node - removes its exit socket / circuit / relay pair")
+    ctx.instance("destroy-authorised", fi.where, f"{len(fw_sites)} destroy-forwarding call(s) made by on_destroy itself, each behind the adjacency test")
+
+
+DESTROY_SENDERS = ("destroy_relay", "destroy_circuit", "destroy_exit_socket", "send_destroy")
+
 
 def _alternatives(fi: FuncInfo, e: ast.AST, depth: int = 4) -> list[ast.AST]:
     """All expressions a value may come from: every definition of a local (flow-insensitive), both arms of `a if c else b`."""
@@ -507,6 +614,81 @@ def _table_of(chain_str: str | None) -> str | None:
         if chain_str == c + "[]":
             return t
     return None
+
+
+def _pairs_of(e) -> list | None:
+    """[(key expr, value expr)] of a literal mapping / literal sequence of pairs, else None"""
+    e = strip_cast(e)
+    if isinstance(e, ast.Call) and isinstance(e.func, ast.Name) and e.func.id in ("dict", "list", "tuple") and len(e.args) == 1 and not e.keywords:
+        e = strip_cast(e.args[0])
+    if isinstance(e, ast.Dict):
+        if any(k is None for k in e.keys):
+            return None
+        return list(zip(e.keys, e.values))
+    if isinstance(e, (ast.List, ast.Tuple)):
+        out = []
+        for x in e.elts:
+            x = strip_cast(x)
+            if not (isinstance(x, (ast.Tuple, ast.List)) and len(x.elts) == 2 and not any(isinstance(y, ast.Starred) for y in x.elts)):
+                return None
+            out.append((x.elts[0], x.elts[1]))
+        return out
+    return None
+
+
+def _store_forms(n) -> list:
+    """
+    The item stores `T[k] = v` that a call / augmented assignment on a routing table performs, each as a synthesised `T[k]` target (kept on
+    the node, so the same object is handed out every time): T.update({k: v, ...}) / T.update([(k, v), ...]) store under every k in order,
+    T.setdefault(k, v) and T.__setitem__(k, v) store under k (setdefault only when k is absent from T - still a store), T |= {k: v}.
+    [] when n is no such store or its keys cannot be enumerated.
+    """
+    got = getattr(n, "_c05_stores", None)
+    if got is not None:
+        return got
+    out: list = []
+    recv = pairs = None
+    if isinstance(n, ast.Call) and isinstance(n.func, ast.Attribute) and not n.keywords and not any(isinstance(a, ast.Starred) for a in n.args):
+        recv = n.func.value
+        if n.func.attr == "update" and len(n.args) == 1:
+            pairs = _pairs_of(n.args[0])
+        elif n.func.attr in ("setdefault", "__setitem__") and len(n.args) == 2:
+            pairs = [(n.args[0], n.args[1])]
+    elif isinstance(n, ast.AugAssign) and isinstance(n.op, ast.BitOr):
+        recv, pairs = n.target, _pairs_of(n.value)
+    if recv is not None and pairs and _table_of((chain(recv) or "") + "[]"):
+        from ..model import clone
+        for k, _v in pairs:
+            base = clone(recv)
+            for x in ast.walk(base):
+                if hasattr(x, "ctx"):
+                    x.ctx = ast.Load()
+            t = ast.copy_location(ast.Subscript(value=base, slice=k, ctx=ast.Store()), n)
+            out.append(t)
+    try:
+        n._c05_stores = out
+    except AttributeError:
+        pass
+    return out
+
+
+def _table_stores(fi: FuncInfo) -> list:
+    """(statement, `T[k]` target) for every store into a routing table written in fi: item assignments and the forms of _store_forms"""
+    out = []
+    for st in walk_no_nested(fi.node):
+        if isinstance(st, ast.Assign):
+            out.extend((st, t) for t in st.targets if isinstance(t, ast.Subscript) and _table_of(chain(t)))
+        elif isinstance(st, ast.AugAssign):
+            out.extend((st, t) for t in _store_forms(st))
+        elif isinstance(st, ast.Call):
+            forms = _store_forms(st)
+            if forms:
+                try:
+                    stmt = enclosing_stmt(st)
+                except Exception:  # noqa: BLE001
+                    stmt = st
+                out.extend((stmt or st, t) for t in forms)
+    return out
 
 
 WIRE_PAYLOAD_PARAMS = ("payload", "create_payload")
@@ -548,13 +730,9 @@ def rule_no_overwrite(ctx: Ctx) -> None:
     for fi in repo.all_functions():
         if not fi.module.relpath.startswith("ipv8/messaging/anonymization/"):
             continue
-        for st in walk_no_nested(fi.node):
-            if not isinstance(st, ast.Assign):
-                continue
-            for t in st.targets:
-                tab = _table_of(chain(t)) if isinstance(t, ast.Subscript) else None
-                if tab is None:
-                    continue
+        for st, t in _table_stores(fi):
+            if True:
+                tab = _table_of(chain(t))
                 n += 1
                 writers.setdefault(fi.qualname, []).append(tab)
                 wire, how = _wire_controlled(ctx, fi, t.slice)
@@ -623,6 +801,8 @@ def rule_no_overwrite(ctx: Ctx) -> None:
             if call_name(c) in ("pop", "clear", "popitem", "update", "setdefault") and any(
                     ch.startswith(p + ".") for p in ("self.circuits", "self.relay_from_to", "self.exit_sockets", "self.relays")):
                 ok = fi.qualname in ("TunnelCommunity.remove_circuit", "TunnelCommunity.remove_relay", "TunnelCommunity.remove_exit_socket")
+                if not ok and _store_forms(c):
+                    continue        # stores under enumerated keys: each of them was judged above as the item assignment it is
                 ctx.check(ok, "table-writers", fi, c, f"{ch} in {fi.qualname}", "routing-table entry removed/rewritten outside remove_*")
         for st in walk_no_nested(fi.node):
             if isinstance(st, ast.Delete):
@@ -765,6 +945,133 @@ def rule_data_origin(ctx: Ctx) -> None:
                 "exit only for circuit ids present in exit_sockets", "data exits for an unknown circuit id")
 
 
+def _cursor_read(repo, fb: FuncInfo, call):
+    """
+    `<K(args)>.m(margs)` (locals of fb already expanded) for a small class K of fb's module whose __init__ only stores its parameters and
+    whose method m computes its result from the fields BEFORE it changes any of them: the expression m returns, written over fb's names
+    (fields replaced by the constructor arguments, m's parameters by margs) - provided that call is the only state-changing use of the object
+    in fb (so it sees the object as constructed).  None when that cannot be established.
+    """
+    from ..model import clone
+    if not (isinstance(call, ast.Call) and isinstance(call.func, ast.Attribute) and isinstance(strip_cast(call.func.value), ast.Call)):
+        return None
+    ctor = strip_cast(call.func.value)
+    k = repo.resolve_class_expr(fb.module, ctor.func)
+    if k is None or k.module is not fb.module or [b for b in k.all_base_names() if b != "object"]:
+        return None
+    init, meth = k.methods.get("__init__"), k.methods.get(call.func.attr)
+    if init is None or meth is None or meth.decorators or init.decorators:
+        return None
+
+    def body(f):
+        b = list(f.node.body)
+        return b[1:] if b and isinstance(b[0], ast.Expr) and isinstance(b[0].value, ast.Constant) and isinstance(b[0].value.value, str) else b
+
+    def bind(f, c):
+        a = f.node.args
+        if a.vararg or a.kwarg or a.kwonlyargs or a.posonlyargs or any(isinstance(x, ast.Starred) for x in c.args) or any(kw.arg is None for kw in c.keywords):
+            return None
+        names = [x.arg for x in a.args][1:]
+        out = dict(zip(names, c.args))
+        if len(c.args) > len(names):
+            return None
+        for kw in c.keywords:
+            if kw.arg not in names or kw.arg in out:
+                return None
+            out[kw.arg] = kw.value
+        for nm, d in zip(reversed(names), reversed(a.defaults)):
+            out.setdefault(nm, d)
+        return out if set(out) == set(names) else None
+
+    def self_stores(f) -> bool:
+        return any(isinstance(x, ast.Attribute) and isinstance(x.ctx, (ast.Store, ast.Del)) for x in ast.walk(f.node)) or \
+            any(isinstance(x, ast.Call) and isinstance(x.func, ast.Attribute) and chain(x.func.value) == "self" for x in ast.walk(f.node))
+
+    cargs, margs = bind(init, ctor), bind(meth, call)
+    if cargs is None or margs is None:
+        return None
+    fields = {}
+    for st in body(init):
+        if not (isinstance(st, ast.Assign) and len(st.targets) == 1 and isinstance(st.targets[0], ast.Attribute) and chain(st.targets[0].value) == "self"
+                and isinstance(st.value, ast.Name) and st.value.id in cargs and st.targets[0].attr not in fields):
+            return None
+        fields[st.targets[0].attr] = cargs[st.value.id]
+    # the object in fb: one local bound once to the constructor call, used only as the receiver of method calls, outside loops; this call is
+    # the only one of them whose method changes the object
+    holders = [n for n in {x.id for x in ast.walk(fb.node) if isinstance(x, ast.Name)} if (d := single_def(fb, n)) is not None and d[1] is None
+               and isinstance(strip_cast(d[0]), ast.Call) and repo.resolve_class_expr(fb.module, strip_cast(d[0]).func) is k]
+    if len(holders) != 1:
+        return None
+    changing = 0
+    for x in walk_no_nested(fb.node):
+        if isinstance(x, ast.Name) and x.id == holders[0] and isinstance(x.ctx, ast.Load):
+            par = getattr(x, "_parent", None)
+            use = getattr(par, "_parent", None)
+            if not (isinstance(par, ast.Attribute) and isinstance(use, ast.Call) and use.func is par):
+                return None
+            m2 = k.methods.get(par.attr)
+            if m2 is None or m2.decorators:
+                return None
+            from ..model import ancestors
+            if self_stores(m2):
+                changing += 1
+                if par.attr != call.func.attr or any(isinstance(a, (ast.For, ast.AsyncFor, ast.While, ast.ListComp, ast.SetComp, ast.DictComp,
+                                                                     ast.GeneratorExp, ast.Lambda)) for a in ancestors(x) if a is not fb.node):
+                    return None
+    if changing != 1 or any(isinstance(x, (ast.FunctionDef, ast.AsyncFunctionDef, ast.Lambda)) for x in ast.walk(fb.node) if x is not fb.node):
+        return None
+    # m: local assignments computed from the untouched fields, then the field updates, then `return <local / expression without self>`
+    env: dict = {}
+    stmts = body(meth)
+    i = 0
+
+    class Sub(ast.NodeTransformer):
+        def __init__(self):
+            self.ok = True
+
+        def visit_Name(self, n):
+            if n.id in env:
+                return clone(env[n.id])
+            if n.id in margs:
+                return clone(margs[n.id])
+            if n.id == "self":
+                self.ok = False
+            return n
+
+        def visit_Attribute(self, n):
+            if isinstance(n.value, ast.Name) and n.value.id == "self":
+                if n.attr in fields and isinstance(n.ctx, ast.Load):
+                    return clone(fields[n.attr])
+                self.ok = False
+                return n
+            return self.generic_visit(n)
+
+    def expand(e):
+        sub = Sub()
+        out = sub.visit(clone(e))
+        return out if sub.ok and not any(isinstance(x, (ast.NamedExpr, ast.Lambda, ast.Await, ast.Yield)) for x in ast.walk(out)) else None
+
+    while i < len(stmts) and isinstance(stmts[i], ast.Assign) and len(stmts[i].targets) == 1 and isinstance(stmts[i].targets[0], ast.Name):
+        v = expand(stmts[i].value)
+        if v is None or stmts[i].targets[0].id in margs:
+            return None
+        env[stmts[i].targets[0].id] = v
+        i += 1
+    while i < len(stmts) and isinstance(stmts[i], (ast.Assign, ast.AugAssign)):
+        tg = stmts[i].targets if isinstance(stmts[i], ast.Assign) else [stmts[i].target]
+        if not all(isinstance(t, ast.Attribute) and chain(t.value) == "self" for t in tg):
+            return None
+        i += 1
+    if i != len(stmts) - 1 or not isinstance(stmts[i], ast.Return) or stmts[i].value is None:
+        return None
+    mutated = any(isinstance(x, (ast.Assign, ast.AugAssign)) and not isinstance((x.targets[0] if isinstance(x, ast.Assign) else x.target), ast.Name)
+                  for x in stmts)
+    if mutated and any(isinstance(x, ast.Name) and x.id == "self" for x in ast.walk(stmts[i].value)):
+        return None
+    # names of the method's module are names of fb's module (same module); locals of fb inside the constructor / call arguments were expanded
+    return expand(stmts[i].value)
+
+
 def rule_return_path(ctx: Ctx) -> None:
     repo = ctx.repo
     td = repo.method("TunnelExitSocket", "tunnel_data", "ipv8/messaging/anonymization/exit_socket.py")
@@ -898,6 +1205,11 @@ def rule_return_path(ctx: Ctx) -> None:
             if not (isinstance(cid, ast.Subscript) and isinstance(cv(cid.slice), int) and not isinstance(cv(cid.slice), bool)
                     and isinstance(strip_cast(cid.value), ast.Call)):
                 return False
+            # the header may be read through a private cursor object (`r = _Reader(packet, 23)`, `r.take("!I??")`): its first - and only -
+            # advancing call reads at the offset the cursor was constructed with
+            through = _cursor_read(repo, fb, strip_cast(cid.value))
+            if through is not None:
+                cid = ast.Subscript(value=through, slice=cid.slice, ctx=ast.Load())
             sc = _struct_call(repo, fb, strip_cast(cid.value))
             if sc is None:
                 return False
@@ -1232,6 +1544,56 @@ def _builtin_exc_ancestors(names) -> set[str]:
     return out
 
 
+def _context_manager_parts(repo, fi: FuncInfo, expr):
+    """
+    What runs when the body of `with <expr>:` inside fi raises, for a context manager defined in the repository:
+    a list of (kind, owner FuncInfo, node, type text, may_swallow) with kind "exit" (the whole __exit__/__aexit__ method), "handler"
+    (an except handler around the yield of a @contextmanager generator) or "finally" (a finally around the yield).  None when the
+    expression does not denote a context manager of the repository (library managers other than suppress do not swallow).
+    """
+    from ..model import ClassInfo
+    e = strip_cast(resolve(fi, expr))
+    if isinstance(e, ast.Name) and e.id == "self" and fi.cls is not None:
+        ci = fi.cls
+    else:
+        if not isinstance(e, ast.Call):
+            return None
+        ci = repo.resolve_class_expr(fi.module, e.func)
+    out = []
+    if isinstance(ci, ClassInfo):
+        ex = [m for m in (ci.lookup("__exit__"), ci.lookup("__aexit__")) if m is not None]
+        if not ex:
+            return None
+        for m in ex:
+            sw = any(isinstance(r, ast.Return) and r.value is not None and const_value(r.value) not in (False, None, 0)
+                     for r in walk_no_nested(m.node))
+            out.append(("exit", m, m.node, "", sw))
+        return out
+    try:
+        targets = [t for t in repo.resolve_call(fi, e) if isinstance(t, FuncInfo)]
+    except Exception:  # noqa: BLE001
+        targets = []
+    gens = [t for t in targets if any((d or "").rsplit(".", 1)[-1] in ("contextmanager", "asynccontextmanager") for d in t.decorator_names())]
+    if not gens:
+        return None
+    for g in gens:
+        found = False
+        for t in [x for x in walk_no_nested(g.node) if isinstance(x, ast.Try)]:
+            if not any(isinstance(y, (ast.Yield, ast.YieldFrom)) for s in t.body for y in walk_no_nested(s)):
+                continue
+            found = True
+            for h in t.handlers:
+                sw = not any(isinstance(x, ast.Raise) for x in walk_no_nested(h))
+                out.append(("handler", g, h, norm(h.type) if h.type is not None else "", sw))
+            if t.finalbody:
+                holder = ast.Module(body=list(t.finalbody), type_ignores=[])
+                if any(call_name(c) for s in t.finalbody for c in calls(s, nested=True)):
+                    out.append(("finally", g, holder, "", False))
+        if not found:
+            out.append(("finally", g, ast.Module(body=[], type_ignores=[]), "", False))     # plain generator: the failure propagates
+    return out
+
+
 def rule_auth_failure_inert(ctx: Ctx) -> None:
     """
     A cell that fails authentication (CryptoException: wrong handshake authenticator, undecryptable cell) must be
@@ -1322,6 +1684,65 @@ def rule_auth_failure_inert(ctx: Ctx) -> None:
                 # which of them run only after a swallowed failure is a question about paths this rule has no graph for
                 raise AnalysisError(f"undecided: auth-failure-inert: {fi.qualname} swallows CryptoException with suppress() and also removes routing entries")
             ctx.instance("auth-failure-inert", fi.where, f"`suppress({norm(typ)})` around `{norm(src[0])[:50]}`: the function removes no entry", line=wn.lineno)
+        # `with <private context manager>: body` - a paired step written as a class with __exit__ or as a @contextmanager generator -
+        # is `try: body / except ...: <what __exit__ / the generator's handler around the yield does>`
+        for wn in [x for x in walk_no_nested(fi.node) if isinstance(x, (ast.With, ast.AsyncWith))]:
+            body_nodes = [x for s_ in wn.body for x in walk_no_nested(s_)]
+            src = [x for x in body_nodes if (isinstance(x, ast.Call) and call_name(x) in raisers)
+                   or (isinstance(x, ast.Raise) and raises_ce_directly(fi, x))]
+            if not src:
+                continue
+            for item in wn.items:
+                parts = _context_manager_parts(repo, fi, item.context_expr)
+                if parts is None:
+                    continue
+                for kind, owner, hnode, htype, may_swallow in parts:
+                    n += 1
+                    label = f"`with {norm(item.context_expr)[:50]}` ({kind} of {owner.qualname})"
+                    if kind == "handler" and hnode.type is not None:
+                        # an exception class handed in as an argument of the manager: the handler catches what this use passes
+                        cm_call = strip_cast(resolve(fi, item.context_expr))
+                        elts, bound_elts, unknown = (hnode.type.elts if isinstance(hnode.type, ast.Tuple) else [hnode.type]), [], False
+                        for el in elts:
+                            if isinstance(el, ast.Name) and el.id in owner.params():
+                                b = arg(cm_call, owner.params().index(el.id) - (1 if owner.cls is not None else 0), el.id) \
+                                    if isinstance(cm_call, ast.Call) else None
+                                unknown = unknown or b is None or isinstance(b, ast.Starred)
+                                bound_elts.append(b)
+                            else:
+                                bound_elts.append(el)
+                        eff = ast.ExceptHandler(type=None if unknown else ast.Tuple(elts=bound_elts, ctx=ast.Load()), name=None, body=[])
+                        if not catches_ce(eff):
+                            ctx.instance("auth-failure-inert", fi.where, f"{label}: `{norm(eff.type)}` handler around the yield cannot receive "
+                                         "CryptoException", line=wn.lineno)
+                            continue
+                    inside = [c for c in calls(hnode, nested=True) if call_name(c) in REMOVERS] if kind == "handler" else \
+                        [c for c in calls(owner, nested=True) if call_name(c) in REMOVERS]
+                    deeper = [c for c in (calls(hnode, nested=True) if kind == "handler" else calls(owner, nested=True))
+                              if call_name(c) not in REMOVERS and any(
+                                  isinstance(tgt, FuncInfo) and tgt.module.relpath.startswith(PKG) and tgt.name not in REMOVERS
+                                  and any(call_name(k) in REMOVERS for k in calls(tgt, nested=True)) for tgt in repo.resolve_call(owner, c))]
+                    if (inside or deeper) and kind != "handler":
+                        # __exit__ / a finally around the yield also runs when the block completed: which of its calls belong to the failure is
+                        # a question about its own paths
+                        raise AnalysisError(f"undecided: auth-failure-inert: {owner.qualname} (context manager used in {fi.qualname} around "
+                                            f"`{norm(src[0])[:40]}`) removes routing entries")
+                    if inside or deeper:
+                        ctx.violation("auth-failure-inert", owner, (inside or deeper)[0],
+                                      f"`except {htype}` around the yield of context manager {owner.qualname}, which {fi.qualname} puts around "
+                                      f"`{norm(src[0])[:60]}`, also receives CryptoException and removes a circuit/relay/exit entry: a cell that FAILS "
+                                      f"authentication tears the entry down instead of being dropped")
+                        ctx.instance("auth-failure-inert", fi.where, f"{label} removes no entry", ok=False, line=wn.lineno)
+                        continue
+                    if may_swallow:
+                        hidden = [c for c in calls(fi) if call_name(c) not in REMOVERS and any(
+                            isinstance(tgt, FuncInfo) and tgt.module.relpath.startswith(PKG) and tgt.name not in REMOVERS
+                            and any(call_name(k) in REMOVERS for k in calls(tgt, nested=True)) for tgt in repo.resolve_call(fi, c))]
+                        if removals or hidden:
+                            raise AnalysisError(f"undecided: auth-failure-inert: {fi.qualname} swallows CryptoException with a context manager "
+                                                f"({owner.qualname}) and also removes routing entries")
+                    ctx.instance("auth-failure-inert", fi.where, f"{label} that can receive CryptoException removes no entry"
+                                 + ("; the function removes no entry either" if may_swallow else "; the failure propagates"), line=wn.lineno)
         if not tries:
             continue
         for t in tries:
@@ -2506,6 +2927,8 @@ class _Sym:
         for n in walk_no_nested(e):
             if isinstance(n, ast.Call):
                 self.hits.append(_Hit(n, st, "call"))
+                for t in _store_forms(n):
+                    self.hits.append(_Hit(t, st, "store"))
 
     # ------------------------------------------------------------------ calls
     def receiver_of(self, call: ast.Call, st: _State):
@@ -3038,6 +3461,8 @@ class _Sym:
                 return [("next", st.bind(s.target.id, new), None)]
             self.record(s.target, st)
             self.hits.append(_Hit(s.target, st, "store"))
+            for t in _store_forms(s):
+                self.hits.append(_Hit(t, st, "store"))
             return [("next", st, None)]
         if isinstance(s, ast.Expr):
             v = s.value
@@ -3835,8 +4260,7 @@ def rule_entry_conversion(ctx: Ctx) -> None:
     repo = ctx.repo
     n = 0
     for fi in _pkg_functions(repo):
-        stores = [(st, t) for st in walk_no_nested(fi.node) if isinstance(st, ast.Assign) for t in st.targets
-                  if isinstance(t, ast.Subscript) and _table_of(chain(t))]
+        stores = _table_stores(fi)
         for st, t in stores:
             if _wire_controlled(ctx, fi, t.slice)[0]:
                 n += 1
@@ -3883,6 +4307,228 @@ def rule_entry_conversion(ctx: Ctx) -> None:
                     f"{'/'.join(o.split('.')[-1] for o in others)} entry that is being converted: a late or repeated message can replace an "
                     f"established {dest.split('.')[-1]} entry, re-routing a circuit that belongs to somebody else")
     ctx.floor("entry-conversion", n, 6)
+
+
+def _violation_at(ctx: Ctx, rule: str, fi: FuncInfo, construct: str, line: int, reason: str) -> None:
+    """ctx.violation for a finding whose identity is a description (stable under reshaping of the statement) but which still names its line"""
+    from ..core import Finding
+    f = Finding(ctx.prop, ctx.rule_id(rule), fi.where, construct, reason, line)
+    if f.key() not in {g.key() for g in ctx.findings}:
+        ctx.findings.append(f)
+
+
+def _ancestors_of(n):
+    from ..model import ancestors
+    return ancestors(n)
+
+
+VERIFY_STEP = "verify_and_generate_shared_secret"
+PLAINTEXT_HANDLERS = ("on_created", "on_extended")
+
+
+def rule_unkeyed_teardown(ctx: Ctx) -> None:
+    """
+    CREATED / EXTENDED travel as plaintext cells: whoever knows (or guesses) the 16-bit identifier of a pending retry cache reaches on_created /
+    on_extended and what they call without holding any key of the circuit.  The only thing in those handlers that needs the keys is the handshake
+    verification (verify_and_generate_shared_secret checks the authenticator against our own DH secret).  So a routing entry may be removed there
+    only on paths on which that verification has COMPLETED normally; the except-handler of the verification step itself is entered by its
+    exceptional edge, i.e. for exactly the cells that were not made with the keys.  (Replacing an exit socket by the relay pair stored under the
+    same id is a conversion, not a teardown: entry-conversion decides it.)
+    """
+    repo = ctx.repo
+    tc = repo.cls("TunnelCommunity", TC)
+    handlers = [m for m in (tc.lookup(n) for n in PLAINTEXT_HANDLERS) if m is not None]
+    ctx.anchor(len(handlers) == len(PLAINTEXT_HANDLERS) or None, "TunnelCommunity.on_created / on_extended")
+
+    def verifies(f: FuncInfo, seen: frozenset = frozenset()) -> list:
+        """statement nodes of f whose normal completion means the handshake verification completed"""
+        cfg = ctx.cfg(f)
+        out = []
+        for c in calls(f):
+            if call_name(c) == VERIFY_STEP:
+                out.extend(cfg.nodes_for(c))
+                continue
+            if call_name(c) in REMOVERS or f.qualname in seen or len(seen) > 3:
+                continue
+            for g in repo.resolve_call(f, c):
+                # a private step that cannot return normally without having completed the verification is the verification
+                if isinstance(g, FuncInfo) and g.module.relpath.startswith(PKG) and g.node is not f.node and not g.is_async \
+                        and any(call_name(k) == VERIFY_STEP for k in calls(g)) and len(repo.resolve_call(f, c)) == 1:
+                    gcfg = ctx.cfg(g)
+                    inner = verifies(g, seen | {f.qualname})
+                    if inner and gcfg.exit not in gcfg.reach(cut_out_normal=inner):
+                        out.extend(cfg.nodes_for(c))
+        return out
+
+    def removal_sites(f: FuncInfo) -> list:
+        out = [(c, call_name(c)) for c in calls(f) if call_name(c) in REMOVERS]
+        for c in calls(f):
+            ch = chain(c.func) or ""
+            if call_name(c) in ("pop", "popitem", "clear") and any(ch.startswith(p + ".") for p in _DICT_TABLES):
+                out.append((c, ch))
+        for st in walk_no_nested(f.node):
+            if isinstance(st, ast.Delete) and any(_table_of(chain(t)) for t in st.targets if isinstance(t, ast.Subscript)):
+                out.append((st, "del"))
+        return out
+
+    def conversion(f: FuncInfo, c, name: str) -> bool:
+        """remove_exit_socket(K) that is always followed by a store of a relay route under the same K"""
+        if name != "remove_exit_socket" or not isinstance(c, ast.Call):
+            return False
+        k = arg(c, 0, "circuit_id")
+        if k is None:
+            return False
+        key = norm(resolve(f, strip_cast(k)))
+        cfg = ctx.cfg(f)
+        targets = [x for st, t in _table_stores(f) if _table_of(chain(t)) == "relay_from_to" and norm(resolve(f, strip_cast(t.slice))) == key
+                   for x in cfg.nodes_for(st)]
+        if targets and all(cfg.always_followed_by(x, targets) for x in cfg.nodes_for(c)):
+            return True
+        # per path (the stores may sit in a loop over a literal sequence of (id, route) pairs, which the walk unrolls): behind every execution
+        # of the removal a relay route is stored under the id that was removed, under exactly the same decisions
+        w = _try_walk(ctx, f)
+        if w is None:
+            return False
+        rs = [(i, h) for i, h in enumerate(w.hits) if h.kind == "call" and h.orig is c]
+
+        def decided(h):
+            return [(norm(a), bool(p)) for a, p in h.st.conds]
+
+        def removed_key(h):
+            a = arg(h.node(), 0, "circuit_id") if isinstance(h.node(), ast.Call) else None
+            return norm(strip_cast(a)) if a is not None else None
+
+        return bool(rs) and all(removed_key(h) is not None and any(
+            j > i and g.kind == "store" and isinstance(g.orig, ast.Subscript) and _table_of(chain(g.orig)) == "relay_from_to"
+            and norm(strip_cast(g.node().slice)) == removed_key(h) and decided(g) == decided(h)
+            for j, g in enumerate(w.hits)) for i, h in rs)
+
+    n = 0
+    seen_v = False
+    done: set = set()
+
+    def visit(f: FuncInfo, verified: bool, via: tuple) -> None:
+        nonlocal n, seen_v
+        if verified or (f.qualname, verified) in done or len(via) > 4:
+            return              # (everything a step does that is only entered after a completed verification is after it)
+        done.add((f.qualname, verified))
+        cfg = ctx.cfg(f)
+        vs_all = verifies(f)
+        seen_v = seen_v or bool(vs_all)
+        everything = cfg.reach()
+        # `with <context manager of the repository>:` - the graph lets a failure inside the block leave the function, but a manager that swallows
+        # it lets execution go on behind the block: a verification step inside such a block proves nothing about the code behind it ...
+        managed = []            # (with statement, parts, nodes of its body)
+        for wn in [x for x in walk_no_nested(f.node) if isinstance(x, (ast.With, ast.AsyncWith))]:
+            for item in wn.items:
+                parts = _context_manager_parts(repo, f, item.context_expr)
+                if parts:
+                    managed.append((wn, item, parts, [x for s_ in wn.body for y in walk_no_nested(s_) for x in cfg.nodes_for(y)]))
+        hidden = {id(x) for _wn, _it, parts, body in managed if any(sw for *_r, sw in parts) for x in body}
+        vs = [x for x in vs_all if id(x) not in hidden]
+        # ... unless the code behind it tests a local that is None from the start and is only ever assigned after the verification completed
+        witness = set()
+        for nm in {x.id for x in walk_no_nested(f.node) if isinstance(x, ast.Name) and isinstance(x.ctx, ast.Store)} - set(f.params()):
+            defs = local_defs(f, nm)
+            if not defs or any(v is None for _s, v, _i in defs) or any(isinstance(x, (ast.NamedExpr, ast.For, ast.AsyncFor, ast.comprehension))
+                                                                       and nm in {y.id for y in ast.walk(x.target) if isinstance(y, ast.Name)}
+                                                                       for x in ast.walk(f.node) if hasattr(x, "target")):
+                continue
+            nones = [d for d in defs if d[2] is None and _is_none(strip_cast(d[1]))]
+            rest = [d for d in defs if d not in nones]
+            if nones and rest and vs_all and all(all(cfg.must_complete(x, vs_all) for x in cfg.nodes_for(st_)) and cfg.nodes_for(st_) for st_, _v, _i in rest):
+                witness.add(nm)
+
+        def witnessed(x) -> bool:
+            for fct in facts_at(cfg, x):
+                l = strip_cast(fct.left)
+                if isinstance(l, ast.Name) and l.id in witness and (
+                        (fct.op == "truthy" and fct.pos) or (fct.op in ("is", "eq") and fct.right is not None and _is_none(strip_cast(fct.right)) and not fct.pos)):
+                    return True
+            return False
+
+        def after(node) -> bool:
+            ns = [x for x in cfg.nodes_for(node) if x in everything]
+            if verified or not ns:
+                return True
+            return all((bool(vs) and cfg.must_complete(x, vs)) or witnessed(x) for x in ns)
+
+        handled_cm_calls = set()
+        for wn, item, parts, body in managed:
+            in_body = any(id(x) in {id(v) for v in vs_all} for x in body)
+            for kind, owner, hnode, htype, _sw in parts:
+                if not (owner.cls is not None and (owner.cls is tc or owner.cls.is_subclass_of("TunnelCommunity") or tc.is_subclass_of(owner.cls.name))):
+                    continue
+                handled_cm_calls.add(id(strip_cast(resolve(f, item.context_expr))))
+                scope = hnode if kind == "handler" else owner.node
+                for rc in [k for k in calls(scope, nested=True) if call_name(k) in REMOVERS]:
+                    n += 1
+                    desc = (f"`{norm(rc)[:60]}` of context manager {owner.qualname} around `{norm(wn.body[0])[:40]}` runs only after the handshake "
+                            "verification completed normally")
+                    if not in_body and after(wn):
+                        ctx.instance("unkeyed-teardown", f.where, desc, line=wn.lineno)
+                        continue
+                    short = call_name(rc)
+                    if in_body and kind == "handler":
+                        ht = hnode.type
+                        if isinstance(ht, ast.Name) and ht.id in owner.params() and isinstance(strip_cast(resolve(f, item.context_expr)), ast.Call):
+                            bound_t = arg(strip_cast(resolve(f, item.context_expr)), owner.params().index(ht.id) - (1 if owner.cls is not None else 0), ht.id)
+                            ht = bound_t if bound_t is not None else ht
+                        construct = f"{short} in except {norm(ht) if ht is not None else ''} of the handshake verification".replace("  ", " ")
+                    else:
+                        construct = head(rc)
+                    ctx.instance("unkeyed-teardown", f.where, desc, ok=False, line=wn.lineno)
+                    _violation_at(ctx, "unkeyed-teardown", f if in_body and kind == "handler" else owner, construct, wn.lineno,
+                                  f"`{norm(rc)[:80]}` (context manager {owner.qualname}, used by {f.qualname} around `{norm(wn.body[0])[:50]}`) is reached "
+                                  f"from the plaintext handler {via[0] if via else f.qualname} on a path on which {VERIFY_STEP} has not completed normally: "
+                                  "CREATED / EXTENDED are plaintext cells, so a third party that names the circuit id and the pending 16-bit identifier - "
+                                  "without any key of the circuit - tears the circuit down")
+
+        for c, name in removal_sites(f):
+            if not [x for x in cfg.nodes_for(c) if x in everything]:
+                continue
+            n += 1
+            if conversion(f, c, name):
+                ctx.instance("unkeyed-teardown", f.where, f"`{norm(c)[:70]}` converts the exit socket into the relay pair stored under the same id "
+                             "(entry-conversion)", line=c.lineno)
+                continue
+            ok = after(c)
+            desc = f"`{norm(c)[:70]}` runs only after the handshake verification completed normally (entered via {' <- '.join(via) or f.qualname})"
+            if ok:
+                ctx.instance("unkeyed-teardown", f.where, desc, line=c.lineno)
+                continue
+            # the finding is named by what is removed and by where it stands relative to the verification, not by the statement's text
+            h = next((a for a in _ancestors_of(c) if isinstance(a, ast.ExceptHandler)), None)
+            t = getattr(h, "_parent", None) if h is not None else None
+            short = name.rsplit(".", 1)[-1] if name != "del" else "del"
+            if isinstance(t, ast.Try) and any(x in vs for s_ in t.body for x in cfg.nodes_for(s_)) or \
+                    (isinstance(t, ast.Try) and any(call_name(k) == VERIFY_STEP for s_ in t.body for k in calls(s_))):
+                construct = f"{short} in except {norm(h.type) if h.type is not None else ''} of the handshake verification".replace("  ", " ")
+            else:
+                construct = head(c)
+            ctx.instance("unkeyed-teardown", f.where, desc, ok=False, line=c.lineno)
+            _violation_at(ctx, "unkeyed-teardown", f, construct, c.lineno,
+                          f"`{norm(c)[:80]}` in {f.qualname} is reached from the plaintext handler {via[0] if via else f.qualname} on a path on which "
+                          f"{VERIFY_STEP} has not completed normally"
+                          + (" (the except-handler of the verification step is entered for exactly the cells that fail it)" if h is not None else "")
+                          + ": CREATED / EXTENDED are plaintext cells, so a third party that names the circuit id and the pending 16-bit identifier - "
+                          "without any key of the circuit - tears the circuit down")
+        for c in calls(f):
+            if call_name(c) in REMOVERS or id(c) in handled_cm_calls:
+                continue
+            if not [x for x in cfg.nodes_for(c) if x in everything]:
+                continue
+            for g in repo.resolve_call(f, c):
+                if not (isinstance(g, FuncInfo) and g.module.relpath.startswith(PKG)) or g.node is f.node:
+                    continue
+                if g.cls is not None and not (g.cls is tc or g.cls.is_subclass_of("TunnelCommunity") or tc.is_subclass_of(g.cls.name)):
+                    continue            # another object's method: it has no access to this community's tables except through remove_* calls on it
+                visit(g, after(c), (*via, g.qualname))
+
+    for hfn in handlers:
+        visit(hfn, False, (hfn.qualname,))
+    ctx.anchor(seen_v or None, f"{VERIFY_STEP} reached from on_created / on_extended")
+    ctx.floor("unkeyed-teardown", n, 2)
 
 
 def rule_interception(ctx: Ctx) -> None:
@@ -3958,6 +4604,7 @@ def rule_interception(ctx: Ctx) -> None:
 
 
 def run(ctx: Ctx) -> None:
+    _ensure_sentinels(ctx.repo)
     rule_interception(ctx)
     rule_authenticated_accounting(ctx)
     rule_unkeyed_circuit(ctx)
@@ -3970,11 +4617,25 @@ def run(ctx: Ctx) -> None:
     rule_auth_failure_inert(ctx)
     rule_hop_fixed(ctx)
     rule_entry_conversion(ctx)
+    rule_unkeyed_teardown(ctx)
     ctx.assume("no shared mutable state between circuits besides the three routing tables and request caches (structural argument; interleavings not explored)")
     ctx.assume("collision of locally generated 32-bit ids with relay/exit ids is a 2^-32 event and not decided")
 
 
 WITNESSES = [
+    {"name": "relay passes a destroy on before the adjacency test (seeded C05-m15)", "file": TC, "rule": "destroy-authorised",
+     "old": "        if prev_relay and peer == prev_relay.hop.peer:\n",
+     "new": "        if next_relay and payload.reason:\n            self.destroy_relay(circuit_id, reason=payload.reason)\n"
+            "        if prev_relay and peer == prev_relay.hop.peer:\n"},
+    {"name": "repaired twin of the known finding: a failed handshake verification only logs and returns", "kind": "twin", "file": TC,
+     "rule": "unkeyed-teardown", "at": "_ours_on_created_extended", "construct": "remove_circuit",
+     "old": "            self.remove_circuit(circuit.circuit_id, \"error while verifying shared secret\")\n            return\n",
+     "new": "            self.logger.warning(\"Handshake verification failed for circuit %d, dropping the answer\", circuit_id)\n            return\n"},
+    {"name": "second removal without a completed verification (no unverified hop -> remove_circuit) next to the known one", "file": TC,
+     "rule": "unkeyed-teardown",
+     "old": "            self.logger.error(\"Can't extend circuit %d (no unverified hop)\", circuit_id)\n            return\n",
+     "new": "            self.logger.error(\"Can't extend circuit %d (no unverified hop)\", circuit_id)\n"
+            "            self.remove_circuit(circuit_id, \"no unverified hop\")\n            return\n"},
     {"name": "cells accepted for a circuit without keys (defect fixed by 3cadd29)", "file": "ipv8/messaging/anonymization/crypto.py", "rule": "keys-required",
      "old": """        if circuit and not circuit.hops and not cell.plaintext:
             self.logger.debug("Got encrypted cell for circuit %d, which has no session keys yet", circuit_id)
